@@ -572,6 +572,11 @@ func (x *Exec) havocLoop(fr *Frame, st *State, li *loopInfo) {
 		st.regs[phi] = v
 		st.assumeAll(inv)
 		st.assumeLoaded(phi.Type(), v)
+		if phi.Comment == "rangeindex" && v.K == VTerm && v.T.Sort == SInt {
+			// compiler-generated index of a range loop: starts at -1 and only grows
+			st.assume(app(SBool, ">=", v.T, IntLit(-1)))
+			st.assume(app(SBool, "<=", v.T, IntLit(1<<48))) // bounded by the length of the collection
+		}
 	}
 	ws := x.loopWrites(fr, li)
 	if len(ws.freeVars) > 0 {
